@@ -580,15 +580,35 @@ def restrict(x, facts: "Facts"):
     return num / conv(x.d)
 
 
+def _restrict_cond(c, facts: "Facts"):
+    """Restrict a term that stands in *condition position* (ite condition, operand of and / or / not): there any atom
+    whose truth value the facts fix becomes 1 / 0, whatever its operator (in value position only boolean operators
+    and registered boolean atoms are replaced)."""
+    if not isinstance(c, Rat):
+        return c
+    v = facts.lookup(c)
+    if v is not None:
+        return Rat.const(1 if v else 0)
+    at = c.as_atom()
+    if at is not None and at.op in ("and", "or") and all(isinstance(x, Rat) for x in at.args):
+        return mk_bool(at.op, *[_restrict_cond(x, facts) for x in at.args])
+    if at is not None and at.op == "not" and isinstance(at.args[0], Rat):
+        return mk_not(_restrict_cond(at.args[0], facts))
+    return restrict(c, facts)
+
+
 def _restrict_atom(at: Atom, facts: "Facts"):
     """Replacement Rat for atom under facts, or None when unchanged."""
+    if at.op in ("and", "or", "not") and all(isinstance(x, Rat) for x in at.args):
+        r = _restrict_cond(Rat.of(at), facts)
+        return None if (r.as_atom() is at) else r
     if at.op in BOOL_OPS or at.uid in BOOLEAN_ATOMS:
         v = facts.lookup(Rat.of(at))
         if v is not None:
             return Rat.const(1 if v else 0)
     if at.op == "ite":
         c, a, b = at.args
-        c2 = restrict(c, facts)
+        c2 = _restrict_cond(c, facts)
         v = facts.lookup(c2)
         if v is True:
             return restrict(a, facts) if isinstance(a, Rat) else None
@@ -637,11 +657,17 @@ def mk_ite(c: Rat, a, b, _restricted=False):
     if not _restricted:
         a = restrict(a, Facts().assume(c, True))
         b = restrict(b, Facts().assume(c, False))
-    if equal(a, b):
+    # inside a Shannon expansion (restricted) only the flat test is used: the expansion itself decides the remaining
+    # conditions, and a nested joint expansion per constructed ite would be exponential in the number of conditions
+    if _flat_equal(a, b) if _restricted else equal(a, b):
         return a
     if isinstance(a, tuple) and isinstance(b, tuple) and len(a) == len(b):
         return tuple(mk_ite(c, x, y) for x, y in zip(a, b))
     at = c.as_atom()
+    if at is not None and at.op == "isnone" and isinstance(a, Rat) and isinstance(b, Rat) and isinstance(at.args[0], Rat):
+        aa = a.as_atom()
+        if aa is not None and aa.op == "const" and aa.args == ("None",) and at.args[0].eq(b):
+            return b   # `None if x is None else x` is x
     if at is not None and at.op == "not":
         return mk_ite(at.args[0], b, a)
     if at is not None and at.op in ("le", "lt", "ne"):
